@@ -28,21 +28,20 @@ func h_id(b byte) (id [32]byte) {
 	return
 }
 
-// C04: connecting a block of coinbase + 1..2 transactions on a symbolic UTXO pre-state.
+// C04: connecting a block of coinbase + 1 transaction on a symbolic UTXO pre-state.
 func H_C04_CommitTxs() {
-	ntx := 1 + zzverif.Enum("ntx-1", 1+zzverif.Tier()) // further transactions: 1 (quick) / 1..2 (thorough)
-	zzverif.Bound("block shape", "coinbase + 1 (quick) or 1..2 (thorough) transactions, each 1..2 inputs and 1..2 outputs; inputs choose among two pre-state txids, the block's own coinbase and every transaction of the block (itself and a later one included); vout in 0..2")
+	zzverif.Bound("block shape", "coinbase + 1 transaction of 1..2 inputs and 1..2 outputs; inputs choose among two pre-state txids, the block's own coinbase and the transaction itself; vout in 0..2; six heights at subsidy-era boundaries")
 	// the block height is case-split over subsidy-era boundaries (the subsidy schedule itself is decided for every
 	// height by H_C04_Subsidy); everything else that depends on it (maturity) stays symbolic through the pre-state heights
 	heights := []uint32{1000, 209999, 210000, 840000, 6929999, 6930000}
-	h_c04_commit(ntx, 2, 2, heights)
+	h_c04_commit(1, 2, 2, heights)
 }
 
-// C04: order of transactions inside a block: two transactions of one input and one output each, every
-// in-block reference (earlier, self, later) available to both.
+// C04: order of transactions inside a block: two transactions, every in-block reference (earlier, self, later)
+// available to both. Quick: one input and one output each; thorough: 1..2 inputs.
 func H_C04_InBlockOrder() {
-	zzverif.Bound("block shape", "coinbase + 2 transactions, each 1 input and 1 output; inputs choose among two pre-state txids, the block's own coinbase and both transactions of the block; vout in 0..2; one height")
-	h_c04_commit(2, 1, 1, []uint32{840000})
+	zzverif.Bound("block shape", "coinbase + 2 transactions, each 1 (thorough 1..2) inputs and 1 output; inputs choose among two pre-state txids, the block's own coinbase and both transactions of the block; vout in 0..2; one height")
+	h_c04_commit(2, 1+zzverif.Tier(), 1, []uint32{840000})
 }
 
 func h_c04_commit(ntx, maxin, maxout int, heights []uint32) {
